@@ -12,7 +12,7 @@ LOG=$OUT/confirm.log; : > "$LOG"
 say() { echo "$@" | tee -a "$LOG"; }
 # demo passes without the patch
 rundemo() { # $1 = output file
-  if [ "$DEMO" = "run.sh" ]; then bash "$SRC/demo/run.sh" "$WT" > "$1" 2>&1
+  if [ "${DEMO%.sh}" != "$DEMO" ]; then bash "$SRC/demo/$DEMO" "$WT" > "$1" 2>&1
   else mkdir -p "$WT/$DEST"; cp "$SRC/demo/$DEMO" "$WT/$DEST/"; (cd "$WT" && go test -vet=off -count=1 -run "$RX" "./$DEST/" > "$1" 2>&1); r=$?; rm -f "$WT/$DEST/$DEMO"; return $r; fi
 }
 rundemo /tmp/sv.demo0.$$; D0=$?
